@@ -167,12 +167,26 @@ class Config:
         return None
 
 
+def is_syntax_of(syntax: str, syntax_type: str):
+    "Check if given syntax name could be a syntax of given abbreviation type"
+    if syntax in DEFAULT_SYNTAXES:
+        return False
+
+    for name, syntaxes in SYNTAXES.items():
+        if name != syntax_type and syntax in syntaxes:
+            return False
+
+    return True
+
+
 def merged_data(syntax_type: str, syntax: str, key: str, user_config: dict, global_config: dict={}):
     empty = {}
     type_defaults = SYNTAX_CONFIG.get(syntax_type, empty)
     type_override = global_config.get(syntax_type, empty)
-    # NB: name of abbreviation type is not a syntax: its section holds type defaults
-    syntax_defaults = SYNTAX_CONFIG.get(syntax, empty) if syntax not in DEFAULT_SYNTAXES else empty
+    # NB: name of abbreviation type is not a syntax: its section holds type defaults.
+    # Syntax of another type (`xsl` for inline CSS of XSL document) is not a syntax
+    # of current type either
+    syntax_defaults = SYNTAX_CONFIG.get(syntax, empty) if is_syntax_of(syntax, syntax_type) else empty
     syntax_override = global_config.get(syntax, empty)
 
     result = {}
